@@ -18,7 +18,8 @@ META = {
             "the first argument tuple of each (class, callable) the full product of letter-case variants "
             "(lower/UPPER/Capitalised/aLtErNaTiNg per token) x aliases; for every other argument tuple a lower "
             "and an upper-case spelling; x every argument shape and type-name spelling; plus and/or/xor trees of "
-            "depth <= 2 over 6 leaves; a case is one (term, spelling) pair; non-trivial = parsed and compared "
+            "depth <= 2 over 6 leaves; data-path arguments in 15 argument positions x 14 paths; H: for every spec of a 60-spec "
+            "pool as the first spec ever parsed in a pristine process, every spec of the pool parsed next; a case is one (term, spelling) pair; non-trivial = parsed and compared "
             "on the probe documents",
     "assumptions": ["operator keys and/or/xor are lower-case only (the statement puts letter case on the leaf spelling)",
                     "string arguments of type-pre-processor conditions cannot be spelled (type names are looked up): "
@@ -75,9 +76,44 @@ def leaf_terms(cls, call, tier):
     return out
 
 
+def hist_pool():
+    """One representative spec per (class, signature kind) + mapping callables + aliases."""
+    out = []
+    for cls in T.CLASSES:
+        seen = set()
+        for call in T.CALLABLES[cls]:
+            k = (T.SIG[call][0], call in T.MAPC)
+            if k in seen and call not in ("keys_contain_N_of", "items_contain", "allowed_keys", "is_instance"):
+                continue
+            seen.add(k)
+            ts = [t for t in leaf_terms(cls, call, "quick") if not dtype_str_arg(t)]
+            if ts:
+                t = ts[min(1, len(ts) - 1)]
+                type_names = T.PREP[cls] == "dtype" or call in ("is_instance", "keys_is_instance")
+                out.append((t, {S.key_spellings(cls, call, full=False)[0]: S.value_spellings(t, type_names)[0]}))
+    return out
+
+
+def path_arg_cases():
+    from mc.props.c17 import PARGS, positions
+    out = []
+    for pa in PARGS:
+        for pos, cond in positions(pa):
+            if cond[0] == "leaf":
+                out.append((cond, S.cond_spec(cond)))
+                kind, names = T.SIG[cond[2]]
+                if kind == "multi":   # positional-list spelling too
+                    vals = [S.arg_spec(a) for a in cond[3]] + [S.arg_spec(v) for _, v in cond[4]]
+                    if len(vals) == len(names) or cond[2] == "equal_to_approx":
+                        out.append((cond, {next(iter(S.cond_spec(cond))): vals}))
+    return out
+
+
 def units(tier):
     u = [["L", cls, call] for cls in T.CLASSES for call in T.CALLABLES[cls]]
     u.append(["T"])
+    u.append(["P"])
+    u += [["H", i] for i in range(len(hist_pool()))]
     return u
 
 
@@ -94,6 +130,20 @@ def run_unit(unit, tier):
                     check_case(res, t, {k: v}, key=(cls, call, ti, ki, vi))
             if ti == 0:
                 res.sample({"term": t, "spec": {keys[-1]: vals[-1]}})
+    elif unit[0] == "P":
+        # data-path arguments in every argument position, keyword-mapping and positional-list spellings
+        for i, (t, spec) in enumerate(path_arg_cases()):
+            check_case(res, t, spec, key=("P", i))
+        res.sample({"term": path_arg_cases()[0][0], "spec": path_arg_cases()[0][1]})
+    elif unit[0] == "H":
+        # H-space for hidden parser state: this unit runs in a pristine process; spec i is the first
+        # spec ever parsed, then every spec of the pool is parsed and compared with the DSL
+        pool = hist_pool()
+        t0, s0 = pool[unit[1]]
+        check_case(res, t0, s0, key=("H", unit[1], "first"))
+        for j, (t, s) in enumerate(pool):
+            check_case(res, t, s, key=("H", unit[1], j), before=[s0])
+        res.sample({"term": t0, "spec": s0})
     else:
         from mc.props.c02 import trees, spec_of
         for i, t in enumerate(trees(2)):
@@ -111,14 +161,22 @@ def run_unit(unit, tier):
 
 def replay(case):
     res = Result()
-    check_case(res, case["term"], case["spec"], key=("replay",))
+    check_case(res, case["term"], case["spec"], key=("replay",), before=case.get("before"), replaying=True)
     return list(res.violations.values())
 
 
-def check_case(res, t, spec, key):
+def check_case(res, t, spec, key, before=None, replaying=False):
     res.count("evaluations")
     res.state(*key)
     case = {"term": t, "spec": spec}
+    if before:
+        case["before"] = before
+        if replaying:   # re-create the history: the specs parsed before this one
+            for b in before:
+                try:
+                    ConditionLike.from_spec(fresh_spec(b))
+                except BaseException:
+                    pass
     name = "%s.%s" % (t[1], t[2]) if t[0] == "leaf" else "tree"
     built = T.build_cond(t)
     sp = fresh_spec(spec)
